@@ -3468,10 +3468,12 @@ impl<'a> Visitor<'a, '_, Error> for JSONValidator<'a> {
             }
             #[cfg(not(feature = "freezer"))]
             {
-              let re = regex::Regex::new(
-                &format_regex(t)
-                  .ok_or_else(|| Error::from_validator(self, "malformed regex".to_string()))?,
-              )
+              // anchored, like the fancy-regex path used with `freezer`
+              let re = regex::Regex::new(&format!(
+                "^(?:{})$",
+                format_regex(t)
+                  .ok_or_else(|| Error::from_validator(self, "malformed regex".to_string()))?
+              ))
               .map_err(|e| Error::from_validator(self, e.to_string()))?;
               if re.is_match(s) {
                 None
